@@ -369,3 +369,8 @@ impl CheckedAdd for BigUint {
 }
 
 impl_sum_iter_type!(BigUint);
+
+#[cfg(num_bigint_verif)]
+pub(super) fn verif_asm_add(a: &mut [u64], b: &[u64], size: usize) -> (bool, usize) {
+    unsafe { schoolbook_add_assign_x86_64(a.as_mut_ptr(), b.as_ptr(), size) }
+}
